@@ -1569,6 +1569,16 @@ def check_C06(ctx):
         ctx.count('special-roots')
         if len(so.evs) < 60000:
             audit_trace(ctx, f'search fen {fen} ; depth=2 trace=full', so, {ident}, cache, abs_cache)
+    # very short move lists (two or three pseudo-legal moves, some of them illegal): ordering and verdicts on tiny lists
+    for fen in ['7k/6Pp/7P/8/8/8/8/K7 b - - 0 1', 'k7/Pp6/P7/8/8/8/8/7K b - - 0 1', '7K/6pP/7p/8/8/8/8/k7 w - - 0 1', 'K7/pP6/p7/8/8/8/8/7k w - - 0 1',
+                '7k/5K1p/7P/8/8/8/8/8 b - - 0 1', 'k7/2K5/p7/P7/8/8/8/8 b - - 0 1']:
+        if not legal_info(ctx, fen): continue
+        so = run_search(ctx, 'fen ' + fen, 'depth=3 trace=full')
+        ctx.count('tiny-move-list-roots')
+        audit_trace(ctx, f'search fen {fen} ; depth=3 trace=full', so, {' '.join(fen.split()[:4])}, cache, abs_cache)
+        info = legal_info(ctx, fen)
+        if info and info[3] == 'no' and (so.bestmove not in info[0]):
+            ctx.oracle_fail('answer-not-legal-on-a-tiny-move-list', f'search fen {fen} ; depth=3', {'bestmove': so.bestmove, 'legal': sorted(info[0])})
     # null moves at nodes that carry an en-passant square: depth-4 traces from positions with many double pushes ahead
     for fen in ['4k3/pppppppp/8/8/8/8/PPPPPPPP/4K3 w - - 0 1', '4k3/pppppppp/8/8/8/8/PPPPPPPP/4K3 b - - 0 1', '6k1/5ppp/8/2r1r3/4p3/7P/3P1PPK/8 w - - 0 1',
                 'r3k2r/pp1p1ppp/8/2p1p3/2P1P3/8/PP1P1PPP/R3K2R w KQkq - 0 1'][: (3 if ctx.quick else 4)]:
